@@ -75,7 +75,13 @@ blanks, labels no goto refers to, API names used as field names, the escape \\25
 a closed output stream, blanks around path strings, a lower-case twin directory, a same-named cart in the other format next to
 OUT, sections taken from a cart in another directory, file-name pattern characters in include names, a cart including its own
 tab, names made of a keyword plus a glyph, `_ENV`, the order in which a tree walker visits operands, form feed / vertical tab,
-title comment lines moved by build, numerals directly followed by keywords.
+title comment lines moved by build, numerals directly followed by keywords, a lexer fast path that ignores an open multi-line
+token, `-- [[` with a blank, names that differ only in letter case, overlapping back-references, `.rom` destinations, pictures
+without alpha channel, an output cart in another directory than the main program, OUT files from which sections are omitted,
+OUT named after the options, empty .lua sources, goto labels with glyphs, block comments that the formatter moves left,
+`if (...)` with a vararg condition, `return function`, an empty `else`, decimal literals with leading zeros, column numbers after
+a long string, `require()` cycles, game-loop functions with parameters, argparse `nargs`, `re.sub` count/flags mix-ups,
+`bytes.lstrip` with a set, lookup tables one entry short, late-binding closures in loops.
 Look for something else, for example: a mask, shift or bit position that is off by one; signed/unsigned or 7-bit/8-bit handling;
 an inclusive/exclusive range end; integer division or rounding; the order in which two sections / options / passes are applied;
 an interaction between two command-line options or two library features that are each fine alone; a module-level table or
